@@ -103,7 +103,8 @@ Theorem C06_p2tr_sound :
   ss = [] /\ witness <> [] /\
   let items := annex_stripped witness in
   (exists sg, items = [sg] /\ sg <> [] /\ so_xonly_ok so x = true /\
-              so_schnorr so x (fst (schnorr_split sg)) (snd (schnorr_split sg)) = Ok true)
+              so_schnorr so x (fst (schnorr_split sg)) (snd (schnorr_split sg)) = Ok true /\
+              schnorr_form_ok sg = true)      (* BIP341 signature form, enforced since 746b81a *)
   \/
   ((2 <= length items)%nat /\ script_path_commit_check C sha256 x witness = Ok true /\
    exists ts fuel, witness_tap_script items = Ok ts /\
@@ -129,7 +130,7 @@ Print Assumptions C06_p2wpkh_complete.
 
 Theorem C06_p2tr_keypath_complete :
   forall C ripemd160 sha1 sha256 hash160 hash256 so c x sg,
-  length x = 32%nat -> sg <> [] -> so_xonly_ok so x = true ->
+  length x = 32%nat -> sg <> [] -> so_xonly_ok so x = true -> schnorr_form_ok sg = true ->
   so_schnorr so x (fst (schnorr_split sg)) (snd (schnorr_split sg)) = Ok true ->
   verify_input C ripemd160 sha1 sha256 hash160 hash256 so c [sg] [] (p2tr_script x) = OTrue.
 Proof. exact p2tr_keypath_complete. Qed.
@@ -296,7 +297,8 @@ Theorem C06_tap_multisig_complete_canonical :
   forall C ripemd160 sha1 sha256 hash160 hash256 so c witness k x1 xs sigs r a extra,
   1 <= k <= 16 ->
   Forall2 (fun x sg => so_xonly_ok so x = true /\
-             (sg = [] \/ so_schnorr so x (fst (schnorr_split sg)) (snd (schnorr_split sg)) = Ok true))
+             (sg = [] \/ (schnorr_form_ok sg = true /\
+                          so_schnorr so x (fst (schnorr_split sg)) (snd (schnorr_split sg)) = Ok true)))
           (x1 :: xs) sigs ->
   zlen (filter (fun sg : bytes => match sg with [] => false | _ => true end) sigs) = k ->
   vloop C ripemd160 sha1 sha256 hash160 hash256 so c witness (2 * length (x1 :: xs) + 2 + extra)
@@ -355,14 +357,15 @@ Example C06_nonvacuous_p2sh_p2wpkh :
 Proof. apply p2sh_p2wpkh_complete; [reflexivity|reflexivity|discriminate|reflexivity]. Qed.
 
 (* 2-of-3 leaf: signatures for keys 1 and 3, an empty element for key 2 (stack: the element for x1 on top) *)
+Definition ex_sig64 : bytes := repeatz 9 64.        (* a signature of the form BIP341 requires: 64 bytes *)
 Definition ex_so_tap : sigops :=
   {| so_checksig := fun _ _ => Ok false; so_multisig := fun _ _ => Ok false; so_xonly_ok := fun _ => true;
-     so_schnorr := fun _ sg _ => Ok (beq sg [9]) |}.
+     so_schnorr := fun _ sg _ => Ok (beq sg ex_sig64) |}.
 Example C06_nonvacuous_tap_multisig :
   exists fuel,
   vloop secp256k1 (fun x => x) (fun x => x) (fun x => x) ex_h160 (fun x => x) ex_so_tap
     {| t_locktime := 0; t_sequence := 0; t_version := 2 |} [] fuel
-    (tap_multisig_script 2 [[1]; [2]; [3]]) ([[9]; []; [9]] ++ []) [] (fl_off true) = OTrue.
+    (tap_multisig_script 2 [[1]; [2]; [3]]) ([ex_sig64; []; ex_sig64] ++ []) [] (fl_off true) = OTrue.
 Proof.
   exists (2 * length [[1]; [2]; [3]] + 2 + 0)%nat.
   apply (tap_multisig_complete _ _ _ _ _ _ _ _ _ 2 [1] [[2]; [3]]); [lia|reflexivity].
@@ -374,7 +377,7 @@ From V Require Proofs.ToyCurve.
 Definition ex_sha (b : bytes) : bytes := to_be 32 (1 + fold_left Z.add b 0 mod 29).
 Definition ex_xkey : bytes := to_be 32 2.
 Definition ex_leaf_raw : bytes := 32 :: ex_xkey ++ [172] ++ 32 :: ex_xkey ++ [186; 81; 135].
-Definition ex_tap_witness : list bytes := [[9]; []; ex_leaf_raw; 192 :: ex_xkey].
+Definition ex_tap_witness : list bytes := [ex_sig64; []; ex_leaf_raw; 192 :: ex_xkey].
 Example C06_nonvacuous_p2tr_script_path :
   script_path_commit_check ToyCurve.toy ex_sha (to_be 32 29) ex_tap_witness = Ok true /\
   verify_input ToyCurve.toy (fun x => x) (fun x => x) ex_sha ex_h160 (fun x => x) ex_so_tap
